@@ -371,7 +371,9 @@ public:
     template<typename T, int N>
     void read(T (&buf)[N])
     {
-        read(buf, N);
+        io_error_if( read( buf, N ) < static_cast< std::size_t >( N )
+                   , "istream_device: unexpected end of stream"
+                   );
     }
 
     /// Reads byte
